@@ -186,19 +186,19 @@ Qed.
 
 (* One traceback frame (the Syntax call of Traceback._render_stack, keyword values regenerated from
    /repo), with or without indent guides, wrapped or not. *)
-Theorem traceback_frame_ok code lineno extra ww transparent guides W :
+Theorem traceback_frame_ok found code lineno extra ww transparent guides W :
   clean code = true -> 0 <= extra -> 1 <= lineno ->
   SyntaxFacts.tb_line_numbers = true -> SyntaxFacts.tb_range_is_lineno_pm_extra = true ->
   SyntaxFacts.tb_highlight_is_lineno = true -> 2 <= SyntaxFacts.tb_code_width ->
   0 <= SyntaxFacts.syntax_default_start_line -> 1 <= SyntaxFacts.syntax_default_tab_size ->
-  let o := tb_opts lineno extra ww transparent guides in
-  exists out, render_frame lex fixed_facts wrapf code lineno extra ww transparent guides W = Ok out /\
+  let o := tb_opts_f found lineno extra ww transparent guides in
+  exists out, render_frame_f lex fixed_facts wrapf found code lineno extra ww transparent guides W = Ok out /\
               render_ok_b o code W out = true /\
               o_highlight o = [lineno] /\ o_range o = Some (lineno - extra, lineno + extra).
 Proof.
-  intros Hc He Hl F1 F2 F3 F4 F5 F6 o. unfold render_frame. fold o.
+  intros Hc He Hl F1 F2 F3 F4 F5 F6 o. unfold render_frame_f. fold o.
   assert (Ho : o_highlight o = [lineno] /\ o_range o = Some (lineno - extra, lineno + extra)).
-  { unfold o, tb_opts. cbn [o_highlight o_range]. rewrite F2, F3. split; reflexivity. }
+  { unfold o, tb_opts_f. cbn [o_highlight o_range]. rewrite F2, F3. split; reflexivity. }
   assert (A1 : o_line_numbers o = true) by exact F1.
   assert (A2 : opts_ok o (code_width_of o code W)).
   { unfold opts_ok. split; [exact F5|]. split; [unfold range_end_nonneg; destruct Ho as [_ Hr]; rewrite Hr; lia|].
